@@ -1,6 +1,6 @@
 (* Non-vacuity examples and refutation witnesses for C11. *)
 From Coq Require Import List String Bool ZArith.
-From PAFC11 Require Import Lib Gen Model Proofs Proofs2 Proofs3 Proofs4.
+From PAFC11 Require Import Lib Gen Model Proofs Proofs2 Proofs3 Proofs4 Proofs5.
 Import ListNotations.
 Open Scope string_scope.
 Open Scope list_scope.
@@ -124,3 +124,46 @@ Proof.
   - intros f Hf. vm_compute in Hf. destruct Hf as [<-|[]]. split; reflexivity.
   - vm_compute. repeat constructor; simpl; intuition discriminate.
 Qed.
+
+(* ---- best fit of a grid search: the hypotheses of C11_grid_best_partial are satisfiable, and the shapes the
+   seeded change of round 5 broke (best cell exactly 0.0, all others negative) evaluate as the property says ---- *)
+Definition grid_zero_best : list row :=
+  [cell "c1" (Some (-4620693217682128896)%Z); cell "c2" (Some 0%Z); cell "c3" (Some (-4612248968380809216)%Z)].
+Example grid_best_partial_nonvacuous :
+  (forall c, In c (children grid_zero_best "g") -> exists u, r_maxll c = Some u) /\
+  (exists c u, In c (children grid_zero_best "g") /\ r_maxll c = Some u /\ (neg_inf_key < u)%Z).
+Proof.
+  split.
+  - intros c Hc. vm_compute in Hc. destruct Hc as [<-|[<-|[<-|[]]]]; eexists; reflexivity.
+  - exists (cell "c2" (Some 0%Z)), 0%Z. split; [vm_compute; right; left; reflexivity|]. split; [reflexivity | reflexivity].
+Qed.
+Example grid_zero_is_best :
+  best_child grid_zero_best "g" = BestIs (cell "c2" (Some 0%Z)) /\
+  map r_id (best_fits_query grid_zero_best "g") = ["c2"] /\
+  best_child_repaired grid_zero_best "g" = BestIs (cell "c2" (Some 0%Z)).
+Proof. vm_compute. repeat split; reflexivity. Qed.
+(* ties: the first of the tied cells through Fit.best_fit, all of them through best_fits(); positive above zero *)
+Example grid_ties_and_signs :
+  let db := [cell "c1" (Some 0%Z); cell "c2" (Some 4612811918334230528%Z); cell "c3" (Some 4612811918334230528%Z); cell "c4" (Some neg_inf_key)] in
+  best_child db "g" = BestIs (cell "c2" (Some 4612811918334230528%Z)) /\
+  map r_id (best_fits_query db "g") = ["c2"; "c3"].
+Proof. vm_compute. split; reflexivity. Qed.
+(* a cell without samples / cells all at -inf: the code as written vs the repair vs the query *)
+Example grid_cell_without_likelihood :
+  let db := [cell "c1" (Some 0%Z); cell "c2" None] in
+  best_child db "g" = BestRaised /\ best_child_repaired db "g" = BestIs (cell "c1" (Some 0%Z)) /\
+  map r_id (best_fits_query db "g") = ["c1"].
+Proof. vm_compute. repeat split; reflexivity. Qed.
+Example grid_all_minus_inf :
+  let db := [cell "c1" (Some neg_inf_key); cell "c2" (Some neg_inf_key)] in
+  best_child db "g" = BestNone /\ best_child_repaired db "g" = BestIs (cell "c1" (Some neg_inf_key)) /\
+  map r_id (best_fits_query db "g") = ["c1"; "c2"].
+Proof. vm_compute. repeat split; reflexivity. Qed.
+Example grid_repaired_hypothesis_nonvacuous : children grid_zero_best "g" <> [] /\ best_child_repaired [cell "c1" None] "g" = BestNone.
+Proof. split; [vm_compute; discriminate | vm_compute; reflexivity]. Qed.
+Example grid_obs_matches_example :
+  grid_obs_matches false grid_zero_best ("g", ObsBestId "c2", ["c2"]) = true /\
+  grid_obs_matches false grid_zero_best ("g", ObsBestId "c3", ["c2"]) = false /\
+  grid_obs_matches false grid_zero_best ("g", ObsBestNone, ["c2"]) = false /\
+  grid_obs_matches false grid_zero_best ("g", ObsBestId "c2", ["c2"; "c3"]) = false.
+Proof. vm_compute. repeat split; reflexivity. Qed.
